@@ -126,7 +126,7 @@ REF = [(r'\btheString\b', '(*theString)', None)]
 
 UNIT = Unit(
     name='c18_validate',
-    props=['C18', 'C03'],
+    props=['C18', 'C03', 'C02'],
     blocks=[UNICODE_BLOCK],
     functions=[
         Fn(DS, r'^consumeWhitespace\(const XalanDOMChar\*&\s+theString\)', 'consumeWhitespace',
